@@ -224,6 +224,13 @@ impl<'a> AnyCache<'a> {
     pub(crate) fn reload_untyped(self, id: SharedString, typ: Type) -> Option<Dependencies> {
         let handle = self.get_cached_untyped(&id, typ)?;
 
+        // The asset that was loaded under this key may have been removed and
+        // replaced by a value added with `get_or_insert`, which is not ours
+        // to reload.
+        if !handle.is_reloadable() {
+            return None;
+        }
+
         let load_asset = || {
             // A panic must not kill the hot-reloading thread: callers of
             // `hot_reload` are waiting for its answer. Treat it as a failure.
@@ -410,7 +417,9 @@ pub(crate) trait CacheExt: Cache {
     #[cold]
     fn add_any<T: Storable>(&self, id: &str, asset: T) -> &UntypedHandle {
         let id = SharedString::from(id);
-        let entry = CacheEntry::new(asset, id, || self._has_reloader());
+        // Values added this way are never reloaded, so they do not need a
+        // lock, and the reloader can tell them from loaded assets.
+        let entry = CacheEntry::new(asset, id, || false);
 
         self.insert(entry)
     }
